@@ -62,8 +62,11 @@ func c03R1(r *Report) {
 			n++
 			owner := enclosingNamed(cs.Parent())
 			key := fmt.Sprintf("alloc.%s/called-from/%s", sp[0], fname(owner))
+			root := p.Func("tor/piece", "Pieces."+sp[1])
 			if relPkg(owner) == "tor/piece" && owner.Name() == sp[1] {
 				r.Ok("R1", key, cs.Pos(), "the designated caller")
+			} else if root != nil && relPkg(owner) == "tor/piece" && p.inUnitOf(owner, root) {
+				r.Ok("R1", key, cs.Pos(), "a private helper of the designated caller %s (every call chain to it starts there)", sp[1])
 			} else {
 				r.Fail("R1", key, cs.Pos(), "%s: a second %s site bypasses the count/lock/state discipline of the piece store", sp[2], strings.ToLower(sp[0]))
 			}
@@ -117,66 +120,64 @@ func c03R2(r *Report, c *pieceCtx) {
 	}
 	r.Fn(add)
 	r.Fn(del)
-	// --- allocation side
+	// --- allocation side: centred on the alloc.Alloc call, wherever in AddData's unit it lives (R1 confines it there)
 	var ac *ssa.Call
-	allInstrs(add, func(in ssa.Instruction) {
-		if isCallNamed(in, "alloc", "Alloc") {
-			ac = in.(*ssa.Call)
+	allocF := p.Func("alloc", "Alloc")
+	if allocF != nil {
+		calls, _ := p.callSitesOf(allocF)
+		for _, cs := range calls {
+			if cc, ok := cs.(*ssa.Call); ok && relPkg(cs.Parent()) == "tor/piece" {
+				ac = cc
+			}
 		}
-	})
+	}
 	if ac == nil {
-		r.Undecided("R2", "AddData/Alloc", add.Pos(), "no alloc.Alloc call in AddData")
+		r.Undecided("R2", "AddData/Alloc", add.Pos(), "no alloc.Alloc call in package piece")
 	} else {
+		af := ac.Parent()
+		r.Fn(af)
 		st := c.la.At(ac)
 		r.Check(st == LW, "R2", "AddData/Alloc/write-locked", ac.Pos(), "allocation happens write-locked", fmt.Sprintf("alloc.Alloc is called in lock state {%s}", st))
-		// dominated by data == nil
-		nilG := false
-		for _, g := range guardsOf(ac.Block()) {
-			g = g.norm()
-			if bo, ok := g.Cond.(*ssa.BinOp); ok && isNilConst(bo.Y) {
-				if fv, _ := loadedField(bo.X); fv == c.data && ((bo.Op == token.EQL && g.Pol) || (bo.Op == token.NEQ && !g.Pol)) {
-					nilG = true
-				}
-			}
-		}
-		r.Check(nilG, "R2", "AddData/Alloc/only-when-data-nil", ac.Pos(), "a buffer is allocated only when the piece has none", "alloc.Alloc is not dominated by data == nil: a second buffer would be allocated (and counted) for the same piece, leaking the first")
-		// dominated by !deleted
-		delG := false
-		for _, g := range guardsOf(ac.Block()) {
-			g = g.norm()
-			if fv, _ := loadedField(g.Cond); fv == c.deleted && !g.Pol {
-				delG = true
-			}
-		}
-		r.Check(delG, "R2", "AddData/Alloc/not-deleted", ac.Pos(), "nothing is allocated once the store is deleted", "alloc.Alloc is not dominated by !ps.deleted: memory can be allocated for a deleted torrent and is never released")
+		nilG, _ := c.reval().establishedAt(ac, c.factDataNil(), 0)
+		r.Check(nilG, "R2", "AddData/Alloc/only-when-data-nil", ac.Pos(), "a buffer is allocated only when the piece has none", "alloc.Alloc is not preceded on every path by data == nil tested in the same lock hold: a second buffer would be allocated (and counted) for the same piece, leaking the first")
+		delG, _ := c.reval().establishedAt(ac, c.factNotDeleted(), 0)
+		r.Check(delG, "R2", "AddData/Alloc/not-deleted", ac.Pos(), "nothing is allocated once the store is deleted", "alloc.Alloc is not preceded on every path by !ps.deleted tested in the same lock hold: memory can be allocated for a deleted torrent and is never released")
 		// success path: store data = result, exactly one count++
 		res := extractOf(ac, 0)
 		errv := extractOf(ac, 1)
 		stored, incs := 0, 0
-		allInstrs(add, func(in ssa.Instruction) {
-			if st, ok := isStoreToField(in, c.data); ok && res != nil && st.Val == res {
-				stored++
-				if !instrDominates(ac, in) {
-					stored = -100
+		for _, fn := range p.SrcFuncs() {
+			if relPkg(fn) != "tor/piece" || !p.inUnitOf(fn, add) {
+				continue
+			}
+			allInstrs(fn, func(in ssa.Instruction) {
+				if st, ok := isStoreToField(in, c.data); ok && res != nil && st.Val == res {
+					stored++
+					if !instrDominates(ac, in) {
+						stored = -100
+					}
 				}
-			}
-			if countDelta(in, c.count) == 1 {
-				incs++
-			}
-		})
+				if countDelta(in, c.count) == 1 {
+					incs++
+					if in.Parent() != af {
+						incs = -100
+					}
+				}
+			})
+		}
 		r.Check(stored == 1, "R2", "AddData/Alloc/stored", ac.Pos(), "the new buffer is stored in the piece", "the buffer returned by alloc.Alloc is not stored into Piece.data exactly once")
-		r.Check(incs == 1, "R2", "AddData/count++-once", ac.Pos(), "the piece count is incremented exactly once in AddData", fmt.Sprintf("AddData increments the piece count %d times (expected once, with the allocation)", incs))
+		r.Check(incs == 1, "R2", "AddData/count++-once", ac.Pos(), "the piece count is incremented exactly once, next to the allocation", fmt.Sprintf("AddData (with its helpers) does not increment the piece count exactly once in the function that allocates (found %d)", incs))
 		// count++ and the store are on the err == nil side and reached on every such path
 		if errv != nil {
 			exits := unreportedExits(mustCfg{ac, func(in ssa.Instruction) bool { return countDelta(in, c.count) == 1 }, []excuse{{errNeqNil(errv), true}}})
 			r.Check(len(exits) == 0, "R2", "AddData/count++-on-success", ac.Pos(), "every path on which the allocation succeeded counts the piece", "a path on which alloc.Alloc succeeded returns without incrementing the count")
 			// and not on the failure path
 			inc := false
-			allInstrs(add, func(in ssa.Instruction) {
+			allInstrs(af, func(in ssa.Instruction) {
 				if countDelta(in, c.count) == 1 {
 					for _, g := range guardsOf(in.Block()) {
 						g = g.norm()
-						if bo, ok := g.Cond.(*ssa.BinOp); ok && bo.Op == token.NEQ && isNilConst(bo.Y) && sameErr(bo.X, errv) && !g.Pol {
+						if bo, ok := g.Cond.(*ssa.BinOp); ok && isNilConst(bo.Y) && sameErr(bo.X, errv) && ((bo.Op == token.NEQ && !g.Pol) || (bo.Op == token.EQL && g.Pol)) {
 							inc = true
 						}
 					}
@@ -187,15 +188,20 @@ func c03R2(r *Report, c *pieceCtx) {
 	}
 	// --- release side
 	var fc *ssa.Call
-	allInstrs(del, func(in ssa.Instruction) {
-		if isCallNamed(in, "alloc", "Free") {
-			fc = in.(*ssa.Call)
+	if freeF := p.Func("alloc", "Free"); freeF != nil {
+		calls, _ := p.callSitesOf(freeF)
+		for _, cs := range calls {
+			if cc, ok := cs.(*ssa.Call); ok && relPkg(cs.Parent()) == "tor/piece" {
+				fc = cc
+			}
 		}
-	})
+	}
 	if fc == nil {
-		r.Undecided("R2", "del/Free", del.Pos(), "no alloc.Free call in del")
+		r.Undecided("R2", "del/Free", del.Pos(), "no alloc.Free call in package piece")
 		return
 	}
+	ff := fc.Parent()
+	r.Fn(ff)
 	for _, w := range []struct {
 		name string
 		pred func(ssa.Instruction) bool
@@ -210,15 +216,23 @@ func c03R2(r *Report, c *pieceCtx) {
 			"after alloc.Free, "+w.name+" is not executed on every path before return/unlock")
 	}
 	decs := 0
-	allInstrs(del, func(in ssa.Instruction) {
-		if countDelta(in, c.count) == -1 {
-			decs++
+	for _, fn := range p.SrcFuncs() {
+		if relPkg(fn) != "tor/piece" || !p.inUnitOf(fn, del) {
+			continue
 		}
-	})
+		allInstrs(fn, func(in ssa.Instruction) {
+			if countDelta(in, c.count) == -1 {
+				decs++
+				if in.Parent() != ff {
+					decs = -100
+				}
+			}
+		})
+	}
 	r.Check(decs == 1, "R2", "del/count---once", fc.Pos(), "the count is decremented exactly once per freed buffer", fmt.Sprintf("del decrements the count %d times", decs))
 	// no other writer of count
 	for _, acc := range p.fieldAccesses(c.count) {
-		if acc.Write && acc.Fn != add && acc.Fn != del {
+		if acc.Write && acc.Fn != add && acc.Fn != del && !p.inUnitOf(acc.Fn, add, del) {
 			r.Fail("R2", "count-writer/"+fname(acc.Fn), acc.Instr.Pos(), "Pieces.count is modified outside AddData/del")
 		}
 	}
@@ -346,8 +360,9 @@ func c03R4(r *Report, c *pieceCtx) {
 			continue
 		}
 		idx := stripIntConv(dc.Call.Args[1])
-		if init, step, ok := loopCounter(idx); ok && init == 0 && step == 1 {
-			// loop guard i < len(ps.pieces)
+		if coversFromZero(idx) {
+			// loop bound idx < len(ps.pieces): as a dominating guard (for i := 0; i < len; i++ / for i := range s)
+			// or as the merged guard of a rotated loop
 			if hasGuard(dc.Block(), func(op token.Token, x, y ssa.Value) bool {
 				if op != token.LSS || stripIntConv(x) != idx {
 					return false
@@ -357,14 +372,14 @@ func c03R4(r *Report, c *pieceCtx) {
 					return false
 				}
 				bi, ok := cv.Call.Value.(*ssa.Builtin)
-				return ok && bi.Name() == "len"
+				if !ok || bi.Name() != "len" {
+					return false
+				}
+				fv, _ := loadedFieldAny(strip(cv.Call.Args[0]))
+				return fv != nil && fv.Name() == "pieces"
 			}) {
 				full = true
 			}
-		}
-		if _, isRange := idx.(*ssa.Phi); isRange && !full {
-			// for i := range ps.pieces
-			full = hasGuard(dc.Block(), func(op token.Token, x, y ssa.Value) bool { return op == token.LSS })
 		}
 	}
 	r.Check(full, "R4", "Del/whole-range", Del.Pos(), "every piece index from 0 to len(pieces)-1 is freed with force", "Pieces.Del does not visibly iterate del(i, true) over the whole index range 0..len(pieces)-1")
@@ -460,7 +475,8 @@ func c03R5(r *Report) {
 	r.Fn(te)
 	m := 0
 	for _, f := range p.SrcFuncs() {
-		if enclosingNamed(f) != te {
+		// every call of Pieces.Expire in package tor (tor.Expire, or a helper factored out of it)
+		if relPkg(f) != "tor" {
 			continue
 		}
 		allInstrs(f, func(in ssa.Instruction) {
@@ -591,14 +607,40 @@ func c03R8(r *Report) {
 		}
 		return false
 	}
-	check := func(f *ssa.Function, neg bool) {
+	// wrappers: package-local functions that pass one of their parameters on as the delta of the counter update
+	// (account(delta) { atomic.AddInt64(&allocated, delta) })
+	wrapper := map[*ssa.Function]int{}
+	for _, f := range p.SrcFuncs() {
+		if relPkg(f) != "alloc" || f == al || f == fr {
+			continue
+		}
 		allInstrs(f, func(in ssa.Instruction) {
 			if !isStdCall(in, "sync/atomic", "", "AddInt64") {
 				return
 			}
+			d := stripIntConv(in.(*ssa.Call).Call.Args[1])
+			for k, prm := range f.Params {
+				if d == ssa.Value(prm) {
+					wrapper[f] = k
+				}
+			}
+		})
+	}
+	check := func(f *ssa.Function, neg bool) {
+		allInstrs(f, func(in ssa.Instruction) {
+			c, isCall := in.(*ssa.Call)
+			if !isCall {
+				return
+			}
+			var v ssa.Value
+			if isStdCall(in, "sync/atomic", "", "AddInt64") {
+				v = c.Call.Args[1]
+			} else if k, isW := wrapper[c.Call.StaticCallee()]; isW && c.Call.StaticCallee() != nil && k < len(c.Call.Args) {
+				v = c.Call.Args[k]
+			} else {
+				return
+			}
 			n++
-			c := in.(*ssa.Call)
-			v := c.Call.Args[1]
 			key := fmt.Sprintf("%s/AddInt64(allocated)", fname(f))
 			if neg {
 				u, ok := v.(*ssa.UnOp)
@@ -619,4 +661,22 @@ func c03R8(r *Report) {
 	check(al, false)
 	check(fr, true)
 	r.Sentinel("R8", n, 2)
+}
+
+// coversFromZero: idx takes the values 0, 1, 2, … : a counter phi(0, idx+1), or the index of a range loop,
+// which go/ssa shapes as phi(-1, ·+1) + 1.
+func coversFromZero(idx ssa.Value) bool {
+	if init, step, ok := loopCounter(idx); ok && init == 0 && step == 1 {
+		return true
+	}
+	if bo, ok := idx.(*ssa.BinOp); ok && bo.Op == token.ADD {
+		for _, pr := range [][2]ssa.Value{{bo.X, bo.Y}, {bo.Y, bo.X}} {
+			if k, okk := constInt(pr[1]); okk && k == 1 {
+				if init, step, ok := loopCounter(pr[0]); ok && init == -1 && step == 1 {
+					return true
+				}
+			}
+		}
+	}
+	return false
 }
